@@ -17,6 +17,7 @@
 #include <algorithm>
 #include <chrono>
 #include <csignal>
+#include <sys/time.h>
 #include <cstdint>
 #include <cstdio>
 #include <cstdlib>
@@ -286,10 +287,30 @@ inline void write_stats() {
   write_file(s.outdir + "/nontrivial.u64", std::string((const char *)hs.data(), hs.size() * 8));
 }
 
+// Per-case CPU-time watchdog for the properties that state termination (C04, C08): process CPU time (ITIMER_VIRTUAL), not
+// wall clock, so machine load cannot trip it.  On expiry the case is saved as crash.case and the process exits 96.
+inline int &case_cpu_limit() { static int v = 0; return v; }
+inline void vtalrm_cb(int) {
+  State &s = st();
+  if (!s.outdir.empty()) write_file(s.outdir + "/fail.msg", "candidate hang: the case used more than the CPU-time bound");
+  death_cb();
+  const char m[] = "pbt: case exceeded its CPU-time bound (candidate hang)\n";
+  (void)!write(2, m, sizeof m - 1);
+  _exit(96);
+}
+inline void arm(int sec) {
+  struct itimerval it; memset(&it, 0, sizeof it); it.it_value.tv_sec = sec;
+  setitimer(ITIMER_VIRTUAL, &it, nullptr);
+}
 inline Verdict guarded_run(const Prop &p, const CaseText &t) {
+  int lim = case_cpu_limit();
+  if (lim > 0) { signal(SIGVTALRM, vtalrm_cb); arm(lim); }
   try {
-    return p.run(t);
+    Verdict v = p.run(t);
+    if (lim > 0) arm(0);
+    return v;
   } catch (const std::exception &e) {
+    if (lim > 0) arm(0);
     return Verdict::fail(std::string("harness exception: ") + e.what());
   }
 }
